@@ -1727,6 +1727,14 @@ impl TransactionalMemory {
         })
     }
 
+    /// The region shrink step that `commit()` performs (layout and allocators only; the file is
+    /// truncated by the commit itself)
+    #[cfg(redb_verif)]
+    pub(crate) fn verif_try_shrink(&self, force: bool) -> Result<bool> {
+        let mut state = self.state.lock()?;
+        Self::try_shrink(&mut state, force)
+    }
+
     pub(crate) fn verif_snapshot(&self) -> super::verif::Snapshot {
         use super::verif::{RegionInfo, Snapshot};
         let mut snap = Snapshot {
